@@ -6,6 +6,7 @@ implementation's dumped states (R2).
 import Spade.Parse
 import Spade.Abs
 import Spade.Query
+import Spade.Algo.Locate
 namespace Spade
 
 structure Fail where
@@ -77,6 +78,9 @@ def checkState (h : HCtx) (s : St) (opProps : String) : List Fail :=
   chk (decide s.StarsOK) (p "C02") "StarsOK" (fun _ => "") ++
   chk (decide s.NoDupEdges) (p "C02") "NoDupEdges" (fun _ => "") ++
   chk (decide s.CcwFaces) (p "C02") "CcwFaces" (fun _ => "") ++
+  -- hypotheses of the locate soundness theorem (C09): checked on every implementation state
+  chk (decide s.CcwAllEdges) (p "C02,C09") "CcwAllEdges" (fun _ => "") ++
+  chk (decide s.FaceTriples) (p "C02,C09") "FaceTriples" (fun _ => "") ++
   chk (decide s.DistinctPositions) (p "C05") "DistinctPositions" (fun _ => "") ++
   chk (decide s.Euler) (p "C02") "Euler" (fun _ => "") ++
   chk (decide s.CountsOK) (p "C02,C14") "CountsOK" (fun _ => s!"{repr s.counts}") ++
